@@ -1,10 +1,12 @@
 (* Extract_expr.v -- extraction of the C04 model and oracle to OCaml.
    ExtrOcamlBasic only; nat, positive, N, Z stay the extracted inductive types. *)
 From Coq Require Import Extraction ExtrOcamlBasic NArith ZArith.
-From Qv Require Import ExprModel.
+From Qv Require Import gen.Tables_expr ExprModel.
 Extraction Language OCaml.
 Set Extraction Optimize.
 Extraction "model_expr.ml"
   N.add N.mul N.sub N.div_eucl N.compare Z.add Z.mul Z.sub Z.div_eucl Z.compare Z.of_N Z.to_N Z.opp
   ExprModel.parse_eval ExprModel.parse_top ExprModel.q_true ExprModel.signed
-  ExprModel.spec_eval ExprModel.spec_truth ExprModel.c04_oracle ExprModel.sf_of_me.
+  ExprModel.spec_eval ExprModel.spec_truth ExprModel.c04_oracle ExprModel.sf_of_me
+  op_Or op_And op_Equal op_NotEqual op_GreaterOrEqual op_LessOrEqual op_Greater op_Less op_BitwiseOr op_BitwiseAnd
+  op_Addition op_Subtraction op_Multiplication op_Division op_Remainder op_Exponent.
